@@ -352,3 +352,36 @@ def r3_3(rep):
                 src = b.canon(n["init"], 10)
                 rep.check("codegen::helpers::integer_type(" in src and "Bitfield" in src and "::layout(" in src, "int-type-source@" + fn,
                           "bitfield_int_ty is integer_type(layout of the bit-field's own type) (found %s)" % src[:160], b.loc(n))
+
+
+@RULES.rule("R3.4", "bit-field units are allocated with the same notion of `packed` that lays out the struct", floor=5)
+def r3_4(rep):
+    """`#pragma pack(2)` makes `is_packed` true although there is no packed attribute and align != 1; if unit allocation
+    used a weaker test, bindgen's overflow realignment would override clang's offsets for such structs."""
+    prog = rep.prog
+    cu = rep.need(prog.fn("ir::comp::CompInfo::compute_bitfield_units"), "CompInfo::compute_bitfield_units")
+    calls = [c for c in cu.calls(lambda n: n["k"] == "MCall" and (n.get("callee") or "").endswith("CompFields::compute_bitfield_units"))]
+    rep.need(calls, "call of CompFields::compute_bitfield_units")
+    src = cu.canon(calls[0]["args"][1], 6)
+    rep.check(src.startswith("ir::comp::CompInfo::is_packed(param:self"), "alloc-packed-is-is_packed",
+              "unit allocation receives `self.is_packed(ctx, layout)` (found %s)" % src[:100], cu.loc(calls[0]))
+    # the flag is threaded through unchanged
+    chain = ["ir::comp::CompFields::compute_bitfield_units", "ir::comp::raw_fields_to_fields_and_bitfield_units", "ir::comp::bitfields_to_allocation_units"]
+    for caller, callee in zip(chain, chain[1:]):
+        b = rep.need(prog.fn(caller), caller)
+        cs = [c for c in b.calls(lambda n: (n.get("callee") or "").startswith(callee))]
+        if not rep.check(bool(cs), "packed-threaded:%s" % callee.split("::")[-1], "`%s` calls `%s`" % (caller.split("::")[-1], callee.split("::")[-1]), b.loc(b.root)):
+            continue
+        for c in cs:
+            args = [b.canon(a, 3) for a in c["args"]]
+            rep.check("param:packed" in args, "packed-threaded:%s" % callee.split("::")[-1],
+                      "`packed` is handed on unchanged (args %s)" % args, b.loc(c))
+    al = rep.need(prog.fn("ir::comp::bitfields_to_allocation_units"), "bitfields_to_allocation_units")
+    realign = [n for n in al.walk() if n["k"] == "Assign" and strip(n["l"]).get("name") == "offset_in_struct"]
+    rep.check(bool(realign) and all(qq.has_atom(qq.guard_atoms(al, n), "param:packed", False) for n in realign), "realign-only-unpacked",
+              "clang's offset is overridden by the overflow realignment only for non-packed structs", al.loc(al.root))
+    # the struct layout side uses the same predicate
+    cg = rep.need(prog.impl_fn("codegen::CodeGenerator", "ir::comp::CompInfo", "codegen"), "<CompInfo as CodeGenerator>::codegen")
+    lets = [n for n in cg.walk() if n["k"] == "Let" and n["pat"].get("name") == "packed"]
+    rep.check(bool(lets) and cg.canon(lets[0]["init"], 5).startswith("ir::comp::CompInfo::is_packed(param:self"), "layout-packed-is-is_packed",
+              "the struct layout side derives `packed` from the same `is_packed`", cg.loc(cg.root))
